@@ -31,6 +31,7 @@ def model_attrs(sparse=False, feat_rows=False, curated=True, no_features=False, 
     tdata = Arr((Tmpl, Samp, Loc if sparse else Chan), AMPWH)
     st_arr = Arr((Spike,), Ix(Tmpl))
     sc_arr = Arr((Spike,), Ix(Clu))
+    st_arr.stored = True        # _load_spike_templates keeps the dtype found on disk (uint16 is accepted); spike_clusters is always widened to int32 by its loader
     wmi_, wm_ = Arr((Chan, Chan), WHI), Arr((Chan, Chan), WH)
     # whitened = raw @ wm, raw = whitened @ wmi: both multiply from the right on their first ('in') axis
     wmi_.roles, wmi_.role_name = ('in', 'out'), 'inverse whitening matrix'
